@@ -44,6 +44,7 @@ def gen_bayes(seed, tier):
         "m0": r.normal((Dw,), 1.0), "S0": r.spd(1, Dw, cmax, diag=prior_diag)[0],
         "Sigma": r.spd(N, Dy, cmax, diag=cond_cls in ("diag", "identitydiag")),
         "y": r.normal((N, Dy), 1.5),
+        "ctor": r.choice(["sigma", "lambda", "sigma_lambda", "all"]),
     }
     if cond_cls.startswith("identity"):
         m["M"] = np.tile(np.eye(Dw)[None], (N, 1, 1))
@@ -78,7 +79,9 @@ def gen_bayes_schedule(seed, k, m, rate):
                     sch["faults"][str(t)] = [gen_fault(r)]
             return sch
         return {"one_shot": True, "faults": {}}
-    sch = {"perm": r.perm(N), "routes": [r.choice(["a", "b"]) for _ in range(N)], "faults": {}}
+    Dy = m["y"].shape[1]
+    sch = {"perm": r.perm(N), "routes": [r.wchoice(["a", "b", "c"], [2, 2, 1.2]) for _ in range(N)], "faults": {},
+           "yperms": [r.perm(Dy) if r.coin(0.5) else None for _ in range(N)], "ufs": [r.coin(0.5) for _ in range(N)]}
     for t in range(1, N):
         if r.coin(rate):
             sch["faults"][str(t)] = [gen_fault(r)]
@@ -124,8 +127,10 @@ def gen_kalman_schedule(seed, k, m, rate):
     T = m["ys"].shape[0]
     if k == 0:
         return {"routes": ["a"] * T, "faults": {}, "inplace": [False] * T}
-    sch = {"routes": [r.choice(["a", "b"]) for _ in range(T)], "faults": {},
-           "inplace": [r.coin(0.6) for _ in range(T)]}
+    Dy = m["ys"].shape[1]
+    sch = {"routes": [r.wchoice(["a", "b", "c"], [2, 2, 1.2]) for _ in range(T)], "faults": {},
+           "inplace": [r.coin(0.6) for _ in range(T)],
+           "yperms": [r.perm(Dy) if r.coin(0.5) else None for _ in range(T)], "ufs": [r.coin(0.5) for _ in range(T)]}
     for t in range(1, T):
         if r.coin(rate):
             sch["faults"][str(t)] = [gen_fault(r)]
@@ -222,7 +227,15 @@ def _cond(cls, Mm, b, Sg, m=None):
     if cls == "identitydiag":
         return C.ConditionalIdentityDiagGaussianPDF(Sigma=jnp.asarray(Sg))
     k = C.ConditionalGaussianDiagPDF if cls == "diag" else C.ConditionalGaussianPDF
-    return k(M=jnp.asarray(Mm), b=jnp.asarray(b), Sigma=jnp.asarray(Sg))
+    ctor = (m or {}).get("ctor", "sigma")
+    kw = {"M": jnp.asarray(Mm), "b": jnp.asarray(b)}
+    if ctor in ("sigma", "sigma_lambda", "all"):
+        kw["Sigma"] = jnp.asarray(Sg)
+    if ctor in ("lambda", "sigma_lambda", "all"):
+        kw["Lambda"] = jnp.asarray(np.linalg.inv(A(Sg)))
+    if ctor == "all":
+        kw["ln_det_Sigma"] = jnp.asarray(np.linalg.slogdet(A(Sg))[1])
+    return k(**kw)
 
 
 def _prior(cls, m0, S0):
@@ -241,10 +254,24 @@ def _apply_faults(w, post, faults, t, stats, kind="pdf"):
     return w.slots[0].obj
 
 
-def _update(cond_i, prior, y_i, route, Dw, Dy):
-    """One Bayesian update of `prior` with observation y_i through `route`; returns (posterior, log predictive)."""
+def _update(cond_i, prior, y_i, route, Dw, Dy, yperm=None, uf=False):
+    """One Bayesian update of `prior` with observation y_i through `route`; returns (posterior, log predictive).
+
+    Route c (likelihood factor): the log predictive carries the K01 offset (Dy-Dw)/2 ln 2pi, accounted for by the caller."""
     jnp = lib()["jnp"]
     yj = jnp.asarray(y_i[None])
+    if route == "c":
+        lik = cond_i.set_y(yj)
+        un = prior.multiply(lik, update_full=bool(uf))
+        lp = A(un.log_integral())[0]
+        return un.get_density(), lp
+    if route == "b" and yperm is not None:
+        joint = cond_i.affine_joint_transformation(prior)
+        ydims = np.arange(Dw, Dw + Dy)[np.asarray(yperm)]
+        post_c = joint.condition_on(ydims)
+        post = post_c.condition_on_x(jnp.asarray(y_i[np.asarray(yperm)][None]))
+        lp = A(joint.get_marginal(ydims).evaluate_ln(jnp.asarray(y_i[np.asarray(yperm)][None])))[0, 0]
+        return post, lp
     if route == "a":
         p_y = cond_i.affine_marginal_transformation(prior)
         post_c = cond_i.affine_conditional_transformation(prior)
@@ -294,7 +321,8 @@ def run_bayes(m, sch, w):
     for t, i in enumerate(sch["perm"]):
         post = _apply_faults(w, post, sch["faults"].get(str(t)), t, w.stats)
         cond_i = cond.slice(jnp.asarray([i]))
-        post, lp = _update(cond_i, post, y[i], sch["routes"][t], Dw, Dy)
+        post, lp = _update(cond_i, post, y[i], sch["routes"][t], Dw, Dy,
+                           yperm=(sch.get("yperms") or [None] * N)[t], uf=(sch.get("ufs") or [False] * N)[t])
         ref.envelope(post)
         ref.I_coh(post, where=f"bayes step {t} obs {i} route {sch['routes'][t]}")
         ev += lp
@@ -339,7 +367,8 @@ def run_kalman(m, sch, w):
             else:
                 emis = C.ConditionalGaussianPDF(M=jnp.asarray(A(m["C"])[None]), b=jnp.asarray(A(m["d"])[None]), Sigma=jnp.asarray(Rt[None]))
         pred = trans.affine_marginal_transformation(filt)
-        filt, lp = _update(emis, pred, ys[t], sch["routes"][t], Dz, Dy)
+        filt, lp = _update(emis, pred, ys[t], sch["routes"][t], Dz, Dy,
+                           yperm=(sch.get("yperms") or [None] * T)[t], uf=(sch.get("ufs") or [False] * T)[t])
         ref.envelope(filt)
         ref.I_coh(filt, where=f"kalman step {t} route {sch['routes'][t]}")
         ev += lp
@@ -357,24 +386,38 @@ def judge_bayes(m, sch, post, ev, refv, w):
     try:
         ref.cmp_log("C11.bayes.evidence", np.asarray(ev), np.asarray(ev_r))
     except Violation as v:
-        if sch.get("one_shot"):
-            N, Dy, Dw = A(m["M"]).shape
-            ctx = {"op": "bayes", "name": "one_shot", "Dy": Dy, "Dw": Dw, "N": N,
-                   "offset_matches": bool(abs((ev - ev_r) - N * (Dy - Dw) / 2.0 * LN2PI) <= 1e-8 * max(1.0, abs(ev_r)))}
-            v.detail.update(route="c", predicted_offset=N * (Dy - Dw) / 2.0 * LN2PI, observed_offset=float(ev - ev_r))
-            if w.findings is not None and w.findings.match(w, ctx, v):
-                w.stats["known_finding_hits"] += 1
-                return
+        N, Dy, Dw = A(m["M"]).shape
+        n_fac = N if sch.get("one_shot") else sum(1 for x in sch["routes"] if x == "c")
+        if n_fac and _k01(w, v, ev, ev_r, n_fac, Dy, Dw):
+            return
         raise
     ref.I_coh(post, where="final posterior")
     w.stats["chk.C11"] += 3
 
 
-def judge_kalman(out, refv, w):
+def _k01(w, v, ev, ev_r, n_fac, Dy, Dw):
+    """Open finding K01: every set_y likelihood factor is off by exactly (Dy-Dw)/2 ln 2pi."""
+    pred = n_fac * (Dy - Dw) / 2.0 * LN2PI
+    ctx = {"op": "bayes", "name": "one_shot", "Dy": Dy, "Dw": Dw, "N": n_fac,
+           "offset_matches": bool(abs((ev - ev_r) - pred) <= 1e-8 * max(1.0, abs(ev_r)))}
+    v.detail.update(route="c", predicted_offset=pred, observed_offset=float(ev - ev_r), set_y_factors=n_fac)
+    if w.findings is not None and w.findings.match(w, ctx, v):
+        w.stats["known_finding_hits"] += 1
+        return True
+    return False
+
+
+def judge_kalman(out, refv, w, m=None, sch=None):
+    Dy, Dz = A(m["C"]).shape if m is not None else (0, 0)
     for t, ((mu, Sg, ev), (mu_r, Sg_r, ev_r)) in enumerate(zip(out, refv)):
         ref.cmp_lin("C11.kalman.mu", mu, mu_r, floor=1e-3, t=t)
         ref.cmp_lin("C11.kalman.Sigma", Sg, Sg_r, floor=1e-9, t=t)
-        ref.cmp_log("C11.kalman.evidence", np.asarray(ev), np.asarray(ev_r), t=t)
+        try:
+            ref.cmp_log("C11.kalman.evidence", np.asarray(ev), np.asarray(ev_r), t=t)
+        except Violation as v:
+            n_fac = sum(1 for x in sch["routes"][: t + 1] if x == "c") if sch is not None else 0
+            if not (n_fac and _k01(w, v, ev, ev_r, n_fac, Dy, Dz)):
+                raise
         w.stats["chk.C11"] += 3
 
 
@@ -397,7 +440,7 @@ def execute(m, sch, salt=0, findings=None):
         judge_bayes(m, sch, post, ev, ref_bayes(m), w)
         return w, (A(post.mu)[0], A(post.Sigma)[0], ev)
     out = run_kalman(m, sch, w)
-    judge_kalman(out, ref_kalman(m), w)
+    judge_kalman(out, ref_kalman(m), w, m, sch)
     return w, out[-1]
 
 
@@ -449,9 +492,9 @@ def run(seed, tier, prop="C11"):
         stats["twins"] += 1
         finals.append(fin)
         digests.append(util.sha_bytes(A(fin[0]), A(fin[1]), np.asarray(fin[2])))
-        nontriv = bool(sch.get("one_shot")) or getattr(w, "fired", 0) > 0 or sch.get("perm", None) != sorted(sch.get("perm", [])) or "b" in sch.get("routes", []) or any(sch.get("inplace", []))
+        nontriv = bool(sch.get("one_shot")) or getattr(w, "fired", 0) > 0 or sch.get("perm", None) != sorted(sch.get("perm", [])) or "b" in sch.get("routes", []) or "c" in sch.get("routes", []) or any(sch.get("inplace", []))
         if nontriv:
-            sigs.append(util.sha_bytes(kind, repr(sch.get("perm")), repr(sch.get("routes")), repr(sch.get("inplace")), repr(sch.get("hows")), repr(sch.get("ufs")), repr(sorted(sch["faults"].items())),
+            sigs.append(util.sha_bytes(kind, repr(sch.get("perm")), repr(sch.get("routes")), repr(sch.get("inplace")), repr(sch.get("hows")), repr(sch.get("ufs")), repr(sch.get("yperms")), repr(sorted(sch["faults"].items())),
                                        repr([np.shape(m[k2]) for k2 in sorted(m) if hasattr(m[k2], "shape")]), m.get("cond_cls", m.get("trans_cls"))))
         res["known"] = sorted(set(res["known"]) | set(w.known))
     if res["ok"] and len(finals) > 1:
